@@ -209,16 +209,23 @@ class PointWise(base.Recombinator):
     if not parents:
       return []
     dna_spec = parents[0].spec
-    target_decision_points = self.where([
+    applicable_points = [
         x for x in self._applicable_decision_points(
-            dna_spec, global_state=global_state, step=step)
-    ], global_state=global_state, step=step)
+            dna_spec, global_state=global_state, step=step)]
+    target_decision_points = self.where(
+        list(applicable_points), global_state=global_state, step=step)
     parent_dicts = [
         p.to_dict('dna_spec',
                   multi_choice_key='parent',
                   include_inactive_decisions=True) for p in parents]
 
-    for dp in target_decision_points:
+    # NOTE: when a parent's decision for an outer space is replaced, that parent
+    # has no decisions for the points of the subspace, so these points must be
+    # recombined as well, even when the `where` statement does not select them.
+    target_ids = set(id(dp) for dp in target_decision_points)
+    for dp in applicable_points:
+      if id(dp) not in target_ids:
+        continue
       parent_decisions = [p[dp] for p in parent_dicts]
       if all(d is None for d in parent_decisions):
         decision = None
@@ -242,11 +249,13 @@ class PointWise(base.Recombinator):
                 for child_dp in self._applicable_decision_points(
                     dp.subchoice(i), global_state=global_state, step=step):
                   parent_dict[child_dp] = None
+                  target_ids.add(id(child_dp))
           else:
             if old_decision != decision:
               for child_dp in self._applicable_decision_points(
                   dp, global_state=global_state, step=step):
                 parent_dict[child_dp] = None
+                target_ids.add(id(child_dp))
           # Update each parent dict for creating a child later.
           parent_dict[dp] = decision
     return list(set(pg.DNA.from_dict(pd, dna_spec) for pd in parent_dicts))
